@@ -53,6 +53,7 @@ func effectsString(ins model.Instruction) string {
 }
 
 func TestC02(t *testing.T) {
+	runWitnesses(t, "C02")
 	col := ev.New("C02", "rapid: for each of the 8 configurations (RV32/RV64 x {-,M,A,MA}): (a) words built from an "+
 		"independent reference decode table with every free bit random, (b) the same with 1-3 random bits flipped "+
 		"(reserved-field and neighbouring-opcode boundaries), (c) uniformly random words, (d) inputs shorter than 4 "+
